@@ -33,6 +33,17 @@ def run_c17(tier):
     st2, tr2 = bita_composition(out, "any", tier, mc_runs)
     states += st2
     trans += tr2
+    # beyond 4 GiB: one stored chunk of 1 MiB named 4097 times by the rebuild order (HugeTrace.tla judges the one recorded event)
+    htr = os.path.join(workdir, "huge.ndjson")
+    rc, o = run(["timeout", "600", VH, "huge-l1", "--out", htr], check=False)
+    if rc != 0 or not os.path.exists(htr):
+        raise ToolError("vh huge-l1 failed (%d): %s" % (rc, o[-2000:]))
+    hverdicts, hsummary = tlc_validate("HugeTrace", "HugeTrace.cfg", [htr])
+    huge_ev = json.loads(open(htr).read().strip())
+    for v in hverdicts:
+        out.violation("%s|huge" % v["rule"], "%s (%s)" % (v["rule"], json.dumps({k: huge_ev[k] for k in ("units", "res", "detail", "writes", "units_written_once", "bad_writes", "max_end_units")})),
+                      {"kind": "huge_l1", "event": huge_ev, "verdict": {k: v[k] for k in ("rule", "scenario", "line")}})
+    log("source of 4097 MiB (one chunk named 4097 times): %s, %d writes, %d verdicts" % (huge_ev["res"], huge_ev["writes"], len(hverdicts)))
     shards = 16
     traces, procs = [], []
     for transport in ("local", "http"):
@@ -68,7 +79,7 @@ def run_c17(tier):
             e["rec"] = {k: e["rec"][k] for k in ("data_off", "header_len", "legacy_magic", "unknown_fields", "order", "descs")}
     shutil.rmtree(workdir, ignore_errors=True)
     out.coverage = {"states": states, "transitions": trans, "traces_validated_against_impl": runs, "trace_events_validated": summary["events"], "encodings": nscen,
-                    "verdicts": counts, "model_checking_runs": mc_runs, "exhaustive": True,
+                    "verdicts": counts, "model_checking_runs": mc_runs, "beyond_4gib": huge_ev, "exhaustive": True,
                     "rule": "every descriptor order x storage order x gap pattern x slack for sources of 0..3 (4) distinct chunks incl. duplicates; magic, unknown fields, raw/compressed per chunk, hash length 4..64, packed/unpacked rebuild order, trailing bytes, chunker parameters and a seed drawn per scenario (seeded); each archive cloned locally, over HTTP and by bita clone / bita info",
                     "samples": [sample]}
     out.assumptions = ["the independent encoder (refcodec.rs) is trusted; every encoded archive is first checked against ArchiveFormat.Conforming by TLC",
